@@ -97,6 +97,9 @@ def _tasks(tier, seed):
     for n in (1, 2):
         out.append({"fn": "loop", "kwargs": {"n": n, "via": "ctor", "flags": "sym"}, "label": f"loop/writes=symbolic/n={n}", "caps": {"max_seconds": 300}})
     out.append({"fn": "loop", "kwargs": {"n": 1, "via": "ctor", "flags": "sym", "cluster_parity": 0}, "label": "loop/writes=symbolic/n=1/clusters_first"})
+    for kind in ("cmos", "mkid", "apd"):
+        for n in ((2,) if tier == "quick" else (1, 2, 3)):
+            out.append({"fn": "loop", "kwargs": {"n": n, "via": "ctor", "flags": "all", "kind": kind}, "label": f"loop/ctor/n={n}/{kind}"})
     for kind in ("ccd", "cmos", "mkid", "apd"):
         out.append({"fn": "reset_ieee", "kwargs": {"kind": kind}, "label": f"reset_ieee/{kind}", "solver": "cvc5", "cross_check": False})
     if tier == "thorough":
@@ -171,10 +174,21 @@ def fidelity_ctor(kwargs, w):
 BUCKETS = ("photon", "signal", "image", "charge")
 
 
+DETECTOR = {"kind": "ccd"}
+
+
 def _processor():
     from pyxel.pipelines import DetectionPipeline, ModelFunction, Processor
 
-    det = make_ccd(*SHAPE)
+    if DETECTOR["kind"] == "ccd":
+        det = make_ccd(*SHAPE)
+    else:
+        from .c08_keys import _make_det
+
+        det = _make_det(DETECTOR["kind"])
+        det.geometry._row, det.geometry._col = SHAPE
+        det.geometry._pixel_vert_size = det.geometry._pixel_horz_size = 10.0
+        det._initialize()
     pipe = DetectionPipeline(
         photon_collection=[ModelFunction(func="vxprobes.probe", name="first", arguments={"tag": "first"})],
         charge_collection=[ModelFunction(func="vxprobes.probe_a", name="write", arguments={"tag": "write"})],
@@ -310,7 +324,8 @@ def _drive(n, via, ts, s, nd, prior, writes, flags, symbolic, cluster_parity=1):
     return accepted, recs
 
 
-def loop(n, via, flags, cluster_parity=1):
+def loop(n, via, flags, cluster_parity=1, kind="ccd"):
+    DETECTOR["kind"] = kind
     ts = [vx.real(f"t{i}") for i in range(n)]
     s = vx.real("s")
     if via == "setter_times":
@@ -342,7 +357,7 @@ def loop(n, via, flags, cluster_parity=1):
         fl = [{b: vx.boolean(f"f{i}_{b}") for b in BUCKETS + ("scene",)} for i in range(n)]
     else:
         fl = [{b: True for b in BUCKETS + ("scene",)} for i in range(n)]
-    tag = f"{via}/n={n}"
+    tag = f"{via}/n={n}" + ("" if kind == "ccd" else f"/{kind}")
     with Patch() as p:
         p.numpy("pyxel.exposure.readout", "pyxel.detectors.readout_properties", *DATA_MODULES)
         import xarray as xr
@@ -423,6 +438,7 @@ def fidelity_loop(kwargs, w):
 
     inp = unjson(w["inputs"])
     n, via, flags = kwargs["n"], kwargs["via"], kwargs["flags"]
+    DETECTOR["kind"] = kwargs.get("kind", "ccd")
 
     def arr(name, dtype=float):
         return np.array([float(inp[f"{name}_{i}"]) if dtype is float else int(inp[f"{name}_{i}"]) % 65536 for i in range(4)], dtype=dtype).reshape(SHAPE)
@@ -546,6 +562,7 @@ def replay(oid, kwargs, model, data):
         return bool(not np.all(pix == 0) or not np.all(chg == 0)), {"before_reset": before, "pixel_after_reset": pix.tolist(), "charge_after_reset": chg.tolist()}
     # loop
     n, via, flags = kwargs["n"], kwargs["via"], kwargs["flags"]
+    DETECTOR["kind"] = kwargs.get("kind", "ccd")
 
     def arr(name, dtype=float):
         return np.array([float(model.get(f"{name}_{i}", 0)) if dtype is float else int(model.get(f"{name}_{i}", 0)) % 65536 for i in range(4)], dtype=dtype).reshape(SHAPE)
